@@ -18,12 +18,18 @@ TABLE = {
     "C05": ("E1", E1N,
             E1T + "For C05: (A,P,N,W) x stream x short/never-ending/slow-ack messages with the stop request enabled in every state; oracles on the virtual clock: <=1 message taken after stop, <=N with max_tasks, no return with unfinished work unless W elapsed, return within one 0.3 s poll after the last finish (within 0.3 s+W with W), no illegal stuck state. One known finding (D2) is classified by a predicate on the failing state.",
             E1NOTE, "DESIGN.md 2.1, 3/C05"),
+    "C06": ("E1", E1N,
+            E1T + "For C06: 2-3 concurrent messages of a task whose dependency graph contains an async gated dependency and a probe from 72 graph shapes (sync/async/generator/async-generator x cached/un-cached x reading Context itself or through a nested child); every Context observation and every set_result is compared with the identity of the message whose callback task performs it.",
+            E1NOTE, "DESIGN.md 2.1, 3/C06"),
     "C07": ("E1", E1N,
             E1T + "For C07: flavour x outcome (8 return values, 9 exception classes incl. BaseException subclasses, no-result, timeout labels racing completion in both orders and simultaneously) x labels, and 2-3 message sequences with the backend failing on every subset of saves; oracle at end of processing: number of set_result calls and stored is_err/value/error class/args/labels equal the scripted outcome; later messages still complete.",
             E1NOTE, "DESIGN.md 2.1, 3/C07"),
     "C10": ("E1", E1N,
             E1T + "For C10: every middleware stack in the bound x outcome through the real listen()/callback(), per-message projected log compared with the reference hook sequence; 2 messages x gated hooks for all interleavings; client side: every stack over {pre_send, post_send} x sync/async x replacing x kick ok/raise through the real AsyncKicker.kiq (bounded-exhaustive enumeration).",
             E1NOTE, "DESIGN.md 2.1, 3/C10"),
+    "C12": ("E1", E1N,
+            E1T + "For C12: 9 dependency-graph shapes x assignments of the five teardown styles x outcome (success, raise, timeout, no-result, resolution failure at each node) x propagate x ack type, plus un-cached variants and two concurrent messages with gated async dependencies; oracle: one CLOSE per OPEN, reverse order, after the task and before SAVE/ACK, exception propagated iff enabled. One known finding (D7, in the pinned taskiq_dependencies) classified by a predicate.",
+            E1NOTE, "DESIGN.md 2.1, 3/C12"),
     "C14": ("E3", E3I,
             "Every (now, T, spelling) of a stated grid (all seconds of the minute, boundary microseconds, T within -3..+63 s of now / the minute boundary / +-1,2 days, 8 zone spellings) is evaluated with the real get_task_delay under a scripted clock and judged by the property's three-way case split. Exhaustive over that grid, nothing sampled; the right level because the property is a pure function of (now, T) whose failure modes sit at second/minute boundaries.",
             "Trusted: the scripted replacement of run.datetime; Python datetime arithmetic used by the oracle. Instants outside the grid are not covered (small-scope).",
